@@ -227,6 +227,9 @@ SXOP(csr_to_dense)
     return Val::M(D);
 }
 SXOP(csr_add) { CSRMatrix A = CSRV(c, e, 1), B = CSRV(c, e, 2); CSRMatrix C(A.nrows(), A.ncols()); A.add_matrix(B, C); return CV(C); }
+SXOP(csr_binop_add) { CSRMatrix A = CSRV(c, e, 1), B = CSRV(c, e, 2); CSRMatrix C(A.nrows(), A.ncols()); csr_binop_csr_canonical(A, B, C, add); return CV(C); }
+SXOP(csr_binop_sub) { CSRMatrix A = CSRV(c, e, 1), B = CSRV(c, e, 2); CSRMatrix C(A.nrows(), A.ncols()); csr_binop_csr_canonical(A, B, C, sub); return CV(C); }
+SXOP(csr_binop_mul) { CSRMatrix A = CSRV(c, e, 1), B = CSRV(c, e, 2); CSRMatrix C(A.nrows(), A.ncols()); csr_binop_csr_canonical(A, B, C, mul); return CV(C); }
 SXOP(csr_mul) { CSRMatrix A = CSRV(c, e, 1), B = CSRV(c, e, 2); CSRMatrix C(A.nrows(), B.ncols()); A.mul_matrix(B, C); return CV(C); }
 SXOP(csr_elementwise_mul) { CSRMatrix A = CSRV(c, e, 1), B = CSRV(c, e, 2); CSRMatrix C(A.nrows(), A.ncols()); A.elementwise_mul_matrix(B, C); return CV(C); }
 SXOP(csr_add_scalar) { CSRMatrix A = CSRV(c, e, 1); DenseMatrix C(A.nrows(), A.ncols()); A.add_scalar(c.B(e, 2), C); return Val::M(C); }
